@@ -26,8 +26,8 @@ impl Parser for Field {
         // 1: required i32 name = 123;
         map(
             tuple((
-                map(tuple((digit1, opt(blank), tag(":"))), |(id, _, _)| {
-                    id.parse::<i32>().unwrap()
+                nom::combinator::map_res(tuple((digit1, opt(blank), tag(":"))), |(id, _, _)| {
+                    id.parse::<i32>()
                 }),
                 opt(blank),
                 opt(Attribute::parse),
